@@ -54,6 +54,17 @@ def main():
     rep.add_mc("every (trace, extension-by-one) pair as a transition, bounded-future + past formulas", r)
     if r["violated"]:
         rep.mc_violation("C16_extend", r)
+    # (B) specification -> code: offline behaviours (Parse, Extend*) simulated by TLC, replayed as evaluate() on every prefix
+    import behaviours
+    bres, behs = behaviours.simulate("C16_sim", U, ["x", "y"], num=(40 if quick else 400), depth=(6 if quick else 8), seed=core.seed(), mode="offline")
+    rep.add_mc("TLC simulation of Rtamt.tla (Parse/Extend): offline behaviours generated for replay", bres, exhaustive=False)
+    if bres["violated"]:
+        rep.mc_violation("C16_sim", bres)
+    bcases = behaviours.to_cases(behs, ["x", "y"])
+    btr = runner.run_cases(bcases)
+    bvs, bgen, bdist = core.validate("C16_sim_replay", btr)
+    rep.add_traces(btr, bvs, bgen, bdist, nontrivial_key=lambda c: c["objs"][0]["text"] + str(c["events"][-1].get("w")))
+    rep.extra["tlc_behaviours_replayed"] = len(bcases)
     rng = random.Random(core.seed() * 7919 + 16)
     cases = gen_cases(rng, 700 if quick else 15000)
     # ---- dense time: evaluate(w1) vs evaluate(w2), w2 extends w1; values at t with t + h < end of w1 agree
